@@ -9,12 +9,14 @@
    decrypts under the new key to the same plaintext and is refused under the
    old key -- under the guard [plain_ok] on the plaintext, whose complement is
    the known finding F19a (witnesses below).
-   What is NOT proved in Coq (see docs/C19.md): the document-level composition
-   of the per-value facts through the identity-driven replacement (every
-   position, aliases stay shared, frame unchanged); those clauses are covered by
-   the correspondence run and by the judge of harness/c19.py only. *)
+   Document level (second half of this file): for EVERY loaded document
+   ([loaded_doc]: identity-consistent, fresh [next], proper keys, container at the
+   root), every cipher obeying the laws [cipher_laws] and every successful run:
+   C19_rekeyed_partial / C19_old_key_dead_partial at every encrypted value
+   position, C19_shared_once, C19_frame; the invariant [Inv] and its preservation
+   by one replacement (C19_inv_step) and by the run (C19_inv_run). *)
 From Coq Require Import List Ascii String NArith Bool.
-From YP Require Import Outcome PyStr PyVal Doc Eyaml C19Spec EyamlProofs.
+From YP Require Import Outcome PyStr PyVal Doc Eyaml C19Spec C19DocSpec EyamlProofs EyamlSubst EyamlDoc EyamlFinal.
 Import ListNotations.
 Open Scope string_scope.
 Import Ey.
@@ -139,3 +141,234 @@ Example C19_ex_rotation :
   rotate_file string toy_enc toy_dec toy_layout "old" "new" (toy_doc (toy_leaf 2 (Some "x") "ENC[O,one]")) 10 []
   = Ok (mkrs (toy_doc (toy_leaf 10 (Some "x") "ENC[N,one]")) ["x"] true 0 11 [] [(2%N, "one", "ENC[N,one]")]).
 Proof. vm_compute. reflexivity. Qed.
+
+(* ======================================================================================== *)
+(* Document level.                                                                           *)
+
+(* "ignoring whitespace and line breaks, it begins with the ENC[ marker", for every value *)
+Theorem C19_marker_all :
+  forall v : pyval,
+    is_eyaml_value v = match v with PStr s => starts_with marker (strip_ws s) | _ => false end.
+Proof. exact marker_all. Qed.
+Print Assumptions C19_marker_all.
+
+(* the identity-consistency / freshness invariant survives one replacement
+   (Processor.set_value at one matched location: the leaf there and, when it can
+   carry an Anchor, every alias of it give way to ONE new object) ... *)
+Theorem C19_inv_step :
+  forall (st : rstate) (l : loc) (value : string) (fmt : out_fmt) (st' : rstate),
+    Inv (r_doc st) (r_next st) -> is_leaf (r_doc st) = false -> (forall m, ~ In (RMember m) l) ->
+    set_at st l value fmt = Ok st' ->
+    Inv (r_doc st') (r_next st') /\ is_leaf (r_doc st') = false.
+Proof. exact set_at_inv. Qed.
+Print Assumptions C19_inv_step.
+
+(* ... and the whole run of one file *)
+Theorem C19_inv_run :
+  forall (key : Type) (enc dec : key -> string -> option string) (layout : out_fmt -> string -> string)
+         (oldk newk : key),
+    cipher_laws key enc dec layout -> oldk <> newk ->
+    forall (d : node) (next : N) (folded : list N) (st : rstate),
+      loaded_doc d next ->
+      rotate_file key enc dec layout oldk newk d next folded = Ok st ->
+      Inv (r_doc st) (r_next st).
+Proof. exact stmt_inv_run. Qed.
+Print Assumptions C19_inv_run.
+
+(* "every non-encrypted key, value, ordering and anchor is unchanged": the document
+   written is the document loaded with exactly the encrypted leaves substituted,
+   each by an encrypted scalar carrying the same Anchor (whatever the exit status) *)
+Theorem C19_frame :
+  forall (key : Type) (enc dec : key -> string -> option string) (layout : out_fmt -> string -> string)
+         (oldk newk : key),
+    cipher_laws key enc dec layout -> oldk <> newk ->
+    forall (d : node) (next : N) (folded : list N) (st : rstate),
+      loaded_doc d next ->
+      rotate_file key enc dec layout oldk newk d next folded = Ok st ->
+      rotated frame_leaf d (r_doc st) /\ frame_of (r_doc st) = frame_of d.
+Proof. exact stmt_frame. Qed.
+Print Assumptions C19_frame.
+
+(* "values shared through an anchor are rotated once and stay shared": two places
+   that held ONE anchored encrypted object hold ONE object afterwards, again
+   encrypted and under the same Anchor; no Anchor is handed to the cipher twice *)
+Theorem C19_shared_once :
+  forall (key : Type) (enc dec : key -> string -> option string) (layout : out_fmt -> string -> string)
+         (oldk newk : key),
+    cipher_laws key enc dec layout -> oldk <> newk ->
+    forall (d : node) (next : N) (folded : list N) (st : rstate),
+      loaded_doc d next ->
+      rotate_file key enc dec layout oldk newk d next folded = Ok st ->
+      (forall l1 l2 x a, (forall m, ~ In (RMember m) l1) -> (forall m, ~ In (RMember m) l2) ->
+         lookup d l1 = Some x -> lookup d l2 = Some x -> is_eyaml_node x = true -> anchor_name x = Some a ->
+         exists y, lookup (r_doc st) l1 = Some y /\ lookup (r_doc st) l2 = Some y /\
+                   anchor_name y = Some a /\ is_eyaml_node y = true)
+      /\ NoDup (r_seen st).
+Proof. exact stmt_shared. Qed.
+Print Assumptions C19_shared_once.
+
+(* "every encrypted value decrypts under the new keys to the same plaintext it had
+   under the old keys": every value position of every document (guard plain_ok on
+   the plaintext = known finding F19a) *)
+Theorem C19_rekeyed_partial :
+  forall (key : Type) (enc dec : key -> string -> option string) (layout : out_fmt -> string -> string)
+         (oldk newk : key),
+    cipher_laws key enc dec layout -> oldk <> newk ->
+    forall (d : node) (next : N) (folded : list N) (st : rstate),
+      loaded_doc d next ->
+      rotate_file key enc dec layout oldk newk d next folded = Ok st ->
+      r_exit st = 0 ->
+      forall l i s, In l (positions d) -> lookup d l = Some (NLeaf i (PStr s)) -> is_eyaml_str s = true ->
+        exists i' s' p, lookup (r_doc st) l = Some (NLeaf i' (PStr s')) /\
+          decrypt_eyaml key dec oldk (PStr s) = Ok (PStr p) /\
+          (plain_ok p = true -> decrypt_eyaml key dec newk (PStr s') = Ok (PStr p)).
+Proof. exact stmt_rekeyed. Qed.
+Print Assumptions C19_rekeyed_partial.
+
+(* "... and no longer decrypts under the old ones" *)
+Theorem C19_old_key_dead_partial :
+  forall (key : Type) (enc dec : key -> string -> option string) (layout : out_fmt -> string -> string)
+         (oldk newk : key),
+    cipher_laws key enc dec layout -> oldk <> newk ->
+    forall (d : node) (next : N) (folded : list N) (st : rstate),
+      loaded_doc d next ->
+      rotate_file key enc dec layout oldk newk d next folded = Ok st ->
+      r_exit st = 0 ->
+      forall l i s, In l (positions d) -> lookup d l = Some (NLeaf i (PStr s)) -> is_eyaml_str s = true ->
+        exists i' s' p, lookup (r_doc st) l = Some (NLeaf i' (PStr s')) /\ is_eyaml_str s' = true /\
+          decrypt_eyaml key dec oldk (PStr s) = Ok (PStr p) /\
+          (plain_ok p = true -> decrypt_eyaml key dec oldk (PStr s') = Raise EyamlExc).
+Proof. exact stmt_old_key_dead. Qed.
+Print Assumptions C19_old_key_dead_partial.
+
+(* a document that is one encrypted scalar is outside [loaded_doc]: it is never searched *)
+Example C19_ex_root_scalar_not_rotated :
+  forall (key : Type) (enc dec : key -> string -> option string) (layout : out_fmt -> string -> string)
+         (oldk newk : key) (i : info),
+    rotate_file key enc dec layout oldk newk (NLeaf i (PStr "ENC[O,one]")) 10 []
+    = Ok (mkrs (NLeaf i (PStr "ENC[O,one]")) [] false 0 10 [] []).
+Proof. reflexivity. Qed.
+
+(* ---- non-vacuity of the document-level theorems ------------------------------------------- *)
+(* a toy cipher that obeys the laws: three plaintexts, two keys *)
+Definition toy3_enc (k p : string) : option string :=
+  if String.eqb k "new" then
+    if String.eqb p "one" then Some "ENC[N,one]"
+    else if String.eqb p "two" then Some "ENC[N,two]"
+    else if String.eqb p "three" then Some "ENC[N,three]" else None
+  else None.
+Definition toy3_dec (k c : string) : option string :=
+  if String.eqb k "old" then
+    if String.eqb c "ENC[O,one]" then Some "one"
+    else if String.eqb c "ENC[O,two]" then Some "two"
+    else if String.eqb c "ENC[O,three]" then Some "three" else None
+  else if String.eqb k "new" then
+    if String.eqb c "ENC[N,one]" then Some "one"
+    else if String.eqb c "ENC[N,two]" then Some "two"
+    else if String.eqb c "ENC[N,three]" then Some "three" else None
+  else None.
+
+Example C19_ex_toy_laws : cipher_laws string toy3_enc toy3_dec toy_layout.
+Proof.
+  assert (T : forall k p c, toy3_enc k p = Some c ->
+            k = "new" /\ ((p = "one" /\ c = "ENC[N,one]") \/ (p = "two" /\ c = "ENC[N,two]") \/ (p = "three" /\ c = "ENC[N,three]"))).
+  { intros k p c H; unfold toy3_enc in H.
+    destruct (String.eqb k "new") eqn:K; [|discriminate H]. apply String.eqb_eq in K. split; [exact K|].
+    destruct (String.eqb p "one") eqn:P1; [apply String.eqb_eq in P1; inversion H; left; split; [exact P1 | reflexivity]|].
+    destruct (String.eqb p "two") eqn:P2; [apply String.eqb_eq in P2; inversion H; right; left; split; [exact P2 | reflexivity]|].
+    destruct (String.eqb p "three") eqn:P3; [apply String.eqb_eq in P3; inversion H; right; right; split; [exact P3 | reflexivity]|].
+    discriminate H. }
+  repeat split.
+  - intros k p c H. destruct (T k p c H) as [-> [[-> ->]|[[-> ->]|[-> ->]]]]; reflexivity.
+  - intros k k' p c Hk H. destruct (T k p c H) as [-> Hc]. unfold toy3_dec.
+    destruct (String.eqb k' "new") eqn:K'; [apply String.eqb_eq in K'; subst k'; exfalso; apply Hk; reflexivity|].
+    destruct (String.eqb k' "old"); [|reflexivity].
+    destruct Hc as [[_ ->]|[[_ ->]|[_ ->]]]; reflexivity.
+  - intros k p c H. destruct (T k p c H) as [_ [[_ ->]|[[_ ->]|[_ ->]]]]; vm_compute; reflexivity.
+  - intros k p c fmt H. destruct (T k p c H) as [_ [[_ ->]|[[_ ->]|[_ ->]]]]; destruct fmt; eexists; vm_compute; split; reflexivity.
+Qed.
+
+(* a plain value, two secrets, an anchored secret with two aliases (one object: identity 8) *)
+Definition toy3_shared : node := toy_leaf 8 (Some "x") "ENC[O,three]".
+Definition toy3_doc (s1 s2 sh : node) : node :=
+  NMap (mkinfo 0 None true None)
+       [(toy_key 1 "plain", toy_key 2 "value");
+        (toy_key 3 "s1", s1);
+        (toy_key 5 "s2", s2);
+        (toy_key 7 "l", NSeq (mkinfo 9 None true None) [sh; sh; toy_key 10 "p"; sh])].
+Definition toy3_before : node := toy3_doc (toy_leaf 4 None "ENC[O,one]") (toy_leaf 6 None "ENC[O,two]") toy3_shared.
+
+Ltac in_cases H :=
+  simpl in H; repeat match type of H with _ \/ _ => destruct H as [H|H] | False => destruct H end.
+
+Example C19_ex_loaded : loaded_doc toy3_before 20.
+Proof.
+  split; [|split; [|reflexivity]].
+  - constructor.
+    + intros a b Ha Hb E. in_cases Ha; in_cases Hb; subst a b; try reflexivity; vm_compute in E; discriminate E.
+    + intros a Ha. in_cases Ha; subst a; vm_compute; reflexivity.
+    + intros a b x Ha Hb Ea Eb. in_cases Ha; in_cases Hb; subst a b; try reflexivity; vm_compute in Ea, Eb; try discriminate Ea; try discriminate Eb.
+    + intros a Ha. in_cases Ha; subst a; vm_compute; discriminate.
+  - intros i kvs H. in_cases H; try discriminate H. inversion H; subst i kvs.
+    simpl. repeat (split || eexists || constructor); vm_compute; reflexivity.
+Qed.
+
+Example C19_ex_run :
+  rotate_file string toy3_enc toy3_dec toy_layout "old" "new" toy3_before 20 []
+  = Ok (mkrs (toy3_doc (toy_leaf 20 None "ENC[N,one]") (toy_leaf 21 None "ENC[N,two]") (toy_leaf 24 (Some "x") "ENC[N,three]"))
+             ["x"] true 0 25 []
+             [(4%N, "one", "ENC[N,one]"); (6%N, "two", "ENC[N,two]"); (8%N, "three", "ENC[N,three]")]).
+Proof. vm_compute. reflexivity. Qed.
+
+Lemma toy3_keys_differ : "old" <> "new".
+Proof. discriminate. Qed.
+
+(* the theorems applied to it: hypotheses met, conclusions as expected *)
+Example C19_ex_frame :
+  frame_of (toy3_doc (toy_leaf 20 None "ENC[N,one]") (toy_leaf 21 None "ENC[N,two]") (toy_leaf 24 (Some "x") "ENC[N,three]"))
+  = frame_of toy3_before.
+Proof.
+  exact (proj2 (C19_frame string toy3_enc toy3_dec toy_layout "old" "new" C19_ex_toy_laws toy3_keys_differ
+                          toy3_before 20 [] _ C19_ex_loaded C19_ex_run)).
+Qed.
+
+Example C19_ex_shared_once :
+  exists y, lookup (toy3_doc (toy_leaf 20 None "ENC[N,one]") (toy_leaf 21 None "ENC[N,two]") (toy_leaf 24 (Some "x") "ENC[N,three]"))
+                   [RKey (PStr "l"); RIdx 0] = Some y
+            /\ lookup (toy3_doc (toy_leaf 20 None "ENC[N,one]") (toy_leaf 21 None "ENC[N,two]") (toy_leaf 24 (Some "x") "ENC[N,three]"))
+                   [RKey (PStr "l"); RIdx 3] = Some y
+            /\ anchor_name y = Some "x" /\ is_eyaml_node y = true.
+Proof.
+  refine (proj1 (C19_shared_once string toy3_enc toy3_dec toy_layout "old" "new" C19_ex_toy_laws toy3_keys_differ
+                          toy3_before 20 [] _ C19_ex_loaded C19_ex_run)
+                [RKey (PStr "l"); RIdx 0] [RKey (PStr "l"); RIdx 3] toy3_shared "x" _ _ _ _ _ _);
+    try reflexivity; intros m H; in_cases H; discriminate H.
+Qed.
+
+Example C19_ex_rekeyed :
+  exists i' s' p,
+    lookup (toy3_doc (toy_leaf 20 None "ENC[N,one]") (toy_leaf 21 None "ENC[N,two]") (toy_leaf 24 (Some "x") "ENC[N,three]"))
+           [RKey (PStr "l"); RIdx 1] = Some (NLeaf i' (PStr s')) /\
+    decrypt_eyaml string toy3_dec "old" (PStr "ENC[O,three]") = Ok (PStr p) /\
+    (plain_ok p = true -> decrypt_eyaml string toy3_dec "new" (PStr s') = Ok (PStr p)).
+Proof.
+  refine (C19_rekeyed_partial string toy3_enc toy3_dec toy_layout "old" "new" C19_ex_toy_laws toy3_keys_differ
+            toy3_before 20 [] _ C19_ex_loaded C19_ex_run eq_refl [RKey (PStr "l"); RIdx 1] _ "ENC[O,three]" _ eq_refl eq_refl).
+  vm_compute. tauto.
+Qed.
+
+Example C19_ex_old_key_dead :
+  exists i' s' p,
+    lookup (toy3_doc (toy_leaf 20 None "ENC[N,one]") (toy_leaf 21 None "ENC[N,two]") (toy_leaf 24 (Some "x") "ENC[N,three]"))
+           [RKey (PStr "s2")] = Some (NLeaf i' (PStr s')) /\ is_eyaml_str s' = true /\
+    decrypt_eyaml string toy3_dec "old" (PStr "ENC[O,two]") = Ok (PStr p) /\
+    (plain_ok p = true -> decrypt_eyaml string toy3_dec "old" (PStr s') = Raise EyamlExc).
+Proof.
+  refine (C19_old_key_dead_partial string toy3_enc toy3_dec toy_layout "old" "new" C19_ex_toy_laws toy3_keys_differ
+            toy3_before 20 [] _ C19_ex_loaded C19_ex_run eq_refl [RKey (PStr "s2")] _ "ENC[O,two]" _ eq_refl eq_refl).
+  vm_compute. tauto.
+Qed.
+
+(* the guard is met by the plaintexts of the example *)
+Example C19_ex_plain_ok : plain_ok "one" = true /\ plain_ok "two" = true /\ plain_ok "three" = true.
+Proof. vm_compute. repeat split. Qed.
